@@ -19,7 +19,8 @@ def _edges(node):
         return [origin + i * bw for i in (-1, 0, 1, 2)]
     if t == "CentrallyBin":
         c = sorted(p)
-        return sorted(set(c + [(a + b) / 2.0 for a, b in zip(c[:-1], c[1:])]))
+        # the partition's boundaries are the midpoints between centres (the centres themselves are interior points)
+        return [(a + b) / 2.0 for a, b in zip(c[:-1], c[1:])]
     if t in ("IrregularlyBin", "Stack"):
         return sorted(p)
     return []
